@@ -99,6 +99,13 @@ ScanInv == (op = "scan" /\ ph = "scan" /\ st.chrom >= 1) =>
        /\ open  => (st.run = runs[Len(runs)][1] /\ mine = SubSeq(runs, 1, Len(runs) - 1))
        /\ ~open => (st.run = None /\ mine = runs)
        /\ \A m \in 1..(n-1) : Coords3(OnChrom(st.emitted, m)) = MaximalRuns(SeqText(done, m))
+(* Documentation of the repaired blank-line defect: the scanner as it was (a blank line opens a run) breaks    *)
+(* "every reported region is non-empty" -- DesignOldScannerOK is VIOLATED on any scope with Blanks = {1} -- and  *)
+(* it differs from the repaired scanner exactly on the inputs BlankLineOutsideRun describes (this one holds).    *)
+OldRec == [Rec EXCEPT !.out = GetRegionsUnrepaired(fasta)]
+DesignOldScannerOK == (ph = "ret" /\ Rec.op = "regions") => \A c \in Clauses("regions") : Holds(c, OldRec)
+OldScannerDiffersOnlyOnTrigger ==
+    (ph = "ret" /\ Rec.op = "regions") => (GetRegionsUnrepaired(fasta) # GetRegions(fasta) <=> BlankLineOutsideRun(Rec))
 (* the action-per-line machine and the folded form used by "regions"/"access" are the same function *)
 ScanMatchesFold == (op = "scan" /\ ph = "ret") => out = GetRegions(fasta)
 =============================================================================
